@@ -1264,3 +1264,12 @@ def run(res, facts, tier):
     _run_c02_26(res, facts, tier)
     from . import c02_num
     c02_num.run_rule(res, facts, tier)
+
+
+_run_c02_27 = run
+
+
+def run(res, facts, tier):
+    _run_c02_27(res, facts, tier)
+    from . import c02_axes
+    c02_axes.run_rule(res, facts, tier)
